@@ -57,6 +57,7 @@ type rtm struct {
 	intAt     int  // H sends an interrupt function on vm.Interrupt during its intAt-th call of the current run (0: never)
 	intSent   bool
 	intRan    bool // the interpreter invoked the interrupt function
+	intQuiet  bool // the function sent returns instead of panicking (action nudge)
 }
 
 // interruptPayload is what the interrupt function panics with (compared by identity).
@@ -83,9 +84,12 @@ func hostH(call otto.FunctionCall) otto.Value {
 			// the usual use of the Interrupt channel, except that the sender is the host function itself, so
 			// that the point of the run at which the function is sent is a point of the specification too
 			r.intSent = true
+			quiet := r.intQuiet
 			call.Otto.Interrupt <- func() {
 				r.intRan = true
-				panic(interruptPayload)
+				if !quiet {
+					panic(interruptPayload)
+				}
 			}
 		}
 	}
@@ -272,12 +276,13 @@ func (w *world) apply(a Action, final bool) (obs c01.Obs, abnormal bool, err err
 		return obs, false, fmt.Errorf("step on unknown runtime %d", a.R)
 	}
 	r.log, r.armed, r.delivered = nil, 0, false
-	r.intAt, r.intSent, r.intRan = 0, false, false
+	r.intAt, r.intSent, r.intRan, r.intQuiet = 0, false, false, false
 	if a.Op == "hostpanic" {
 		r.armed = a.K
 	}
-	if a.Op == "interrupt" {
+	if a.Op == "interrupt" || a.Op == "nudge" {
 		r.intAt = a.K
+		r.intQuiet = a.Op == "nudge"
 	}
 	if a.Op == "limit" {
 		r.vm.SetStackDepthLimit(a.Lim)
@@ -349,7 +354,7 @@ func (w *world) apply(a Action, final bool) (obs c01.Obs, abnormal bool, err err
 			default:
 				e = fmt.Errorf("unknown route %q", a.Route)
 			}
-		case "interrupt":
+		case "interrupt", "nudge":
 			if a.P < 1 || a.P > len(SpinSources) {
 				e = fmt.Errorf("no spin program %d", a.P)
 				return
@@ -386,7 +391,7 @@ func (w *world) apply(a Action, final bool) (obs c01.Obs, abnormal bool, err err
 	}()
 	armed, delivered := r.armed, r.delivered
 	r.armed = 0
-	if a.Op == "interrupt" {
+	if a.Op == "interrupt" || a.Op == "nudge" {
 		r.intAt = 0
 		select { // a function that was sent and never taken must not leak into the next step
 		case <-r.vm.Interrupt:
@@ -401,6 +406,12 @@ func (w *world) apply(a Action, final bool) (obs c01.Obs, abnormal bool, err err
 			}
 		}
 		switch {
+		case a.Op == "nudge":
+			// the function returns: it must have been invoked before the run ended, and the run goes on to its
+			// end with the outcome of an undisturbed run (compared below like any run)
+			if r.intSent && !r.intRan {
+				return obs, false, fmt.Errorf("a (returning) function sent on the Interrupt channel during call %d of the host function was never invoked before the run ended", a.K)
+			}
 		case r.intRan && escaped == any(interruptPayload):
 			if final {
 				atomic.AddInt64(&w.st.runtimeSteps, 1)
@@ -541,6 +552,8 @@ func describe(as []Action) []string {
 			out[i] = fmt.Sprintf("vm%d.Call(%q, nil, %s)", a.R, unitsToString(a.Nm), mustJSON(a.Args))
 		case "interrupt":
 			out[i] = fmt.Sprintf("vm%d.Run[%s](%s) with an interrupt function (panicking) sent on vm%d.Interrupt during call %d of H", a.R, a.Route, strconv.Quote(SpinSources[a.P-1]), a.R, a.K)
+		case "nudge":
+			out[i] = fmt.Sprintf("vm%d.Run(%s) with a function that RETURNS sent on vm%d.Interrupt during call %d of H", a.R, strconv.Quote(SpinSources[a.P-1]), a.R, a.K)
 		case "limit":
 			out[i] = fmt.Sprintf("vm%d.SetStackDepthLimit(%d)", a.R, a.Lim)
 		}
